@@ -36,8 +36,14 @@ func MatchFunctionsByTopology(oldResults, newResults []FingerprintResult, thresh
 	matchedOld := make(map[string]bool)
 	matchedNew := make(map[string]bool)
 
+	// Iterate in name order: Go randomises map iteration, and the order of the
+	// matches (and of the rename candidates below) ends up in the report.
+	oldNames := sortedResultNames(oldByName)
+	newNames := sortedResultNames(newByName)
+
 	// Phase 1: Direct matches by Name
-	for name, oldR := range oldByName {
+	for _, name := range oldNames {
+		oldR := oldByName[name]
 		if newR, ok := newByName[name]; ok {
 			oldFn := oldR.GetSSAFunction()
 			newFn := newR.GetSSAFunction()
@@ -71,14 +77,14 @@ func MatchFunctionsByTopology(oldResults, newResults []FingerprintResult, thresh
 	var unmatchedOld []FingerprintResult
 	var unmatchedNew []FingerprintResult
 
-	for name, r := range oldByName {
+	for _, name := range oldNames {
 		if !matchedOld[name] {
-			unmatchedOld = append(unmatchedOld, r)
+			unmatchedOld = append(unmatchedOld, oldByName[name])
 		}
 	}
-	for name, r := range newByName {
+	for _, name := range newNames {
 		if !matchedNew[name] {
-			unmatchedNew = append(unmatchedNew, r)
+			unmatchedNew = append(unmatchedNew, newByName[name])
 		}
 	}
 
@@ -179,6 +185,16 @@ func MatchFunctionsByTopology(oldResults, newResults []FingerprintResult, thresh
 	}
 
 	return matched, addedFuncs, removedFuncs
+}
+
+// sortedResultNames returns the keys of m in ascending order.
+func sortedResultNames(m map[string]FingerprintResult) []string {
+	names := make([]string, 0, len(m))
+	for name := range m {
+		names = append(names, name)
+	}
+	sort.Strings(names)
+	return names
 }
 
 func ShortFuncName(fullName string) string {
